@@ -100,4 +100,51 @@ def refusalSafe (t : ClassTable) : Bool := t.setters.all fun s => s.early.isEmpt
 
 end ClassTable
 
+/-! ## (c) settings as independent fields (round 5)
+
+The public state of a chart / rose / compass / profile is a record of settings, one per setter.  A setter call
+`k := x` on configuration `c` leaves field `k` holding `put k x c` - the argument, a converted argument, or (a
+silent skip / a clamp) something that depends on the current configuration - and no other field changed. -/
+
+structure FieldSetters (Field FVal : Type) where
+  /-- the fields the code of setter `k` looks at -/
+  reads : Field → List Field
+  put : Field → FVal → (Field → FVal) → FVal
+
+namespace FieldSetters
+variable {Field FVal : Type} [DecidableEq Field]
+
+def upd (F : FieldSetters Field FVal) (k : Field) (x : FVal) (c : Field → FVal) : Field → FVal :=
+  fun j => if j = k then F.put k x c else c j
+
+/-- a sequence of setter calls, first call first -/
+def apply (F : FieldSetters Field FVal) (c : Field → FVal) (calls : List (Field × FVal)) : Field → FVal :=
+  calls.foldl (fun c p => F.upd p.1 p.2 c) c
+
+/-- `reads` is honest: the setter's code sees nothing but the fields listed there -/
+def Local (F : FieldSetters Field FVal) : Prop :=
+  ∀ k x c c', (∀ j ∈ F.reads k, c j = c' j) → F.put k x c = F.put k x c'
+
+/-- setter frame (the semantic content of `ClassTable.setterFrame`): a setter looks at its own field only -/
+def OwnOnly (F : FieldSetters Field FVal) : Prop := ∀ k, ∀ j ∈ F.reads k, j = k
+
+/-- the memo object over such a record of settings -/
+def toSpec {Slot Val : Type} (F : FieldSetters Field FVal) (f : Slot → (Field → FVal) → Val)
+    (resets : Field → List Slot) : Spec (Field → FVal) Slot Val Field FVal := ⟨f, F.upd, resets⟩
+
+def setOps {Slot : Type} (calls : List (Field × FVal)) : List (Op Slot Field FVal) :=
+  calls.map fun p => Op.set p.1 p.2
+
+end FieldSetters
+
+/-- The two Y-axis limits of one data type of a monthly chart AS THE CODE IS: `set_minimum_by_index` /
+`set_maximum_by_index` store the argument unconditionally (field `false` = minimum, `true` = maximum). -/
+def chartLimits : FieldSetters Bool Int := ⟨fun k => [k], fun _ x _ => x⟩
+
+/-- Defect shape "cross-field check with a silent skip": a minimum at or above the current maximum and a
+maximum at or below the current minimum are ignored. -/
+def chartLimitsSkip : FieldSetters Bool Int :=
+  ⟨fun k => [k, !k], fun k x c =>
+    if k = false then (if x ≥ c true then c false else x) else (if x ≤ c false then c true else x)⟩
+
 end Lazy
